@@ -370,6 +370,28 @@ fn mk_macsec(a: &[&str]) -> Option<Result<MacsecHeader, String>> {
     }
 }
 fn macsec_from(b: &[u8]) -> Result<(MacsecHeader, &[u8]), String> {
+    // the reader based decoder is a separate copy of the same checks: it has to give the same verdict
+    // and the same header (a cut header is an I/O error there)
+    {
+        let by_slice = MacsecHeader::from_slice(b);
+        let by_read = MacsecHeader::read(&mut std::io::Cursor::new(b));
+        let same = match (&by_slice, &by_read) {
+            (Ok(a), Ok(r)) => a == r,
+            (Err(err::macsec::HeaderSliceError::Len(_)), Err(err::macsec::HeaderReadError::Io(_))) => true,
+            (
+                Err(err::macsec::HeaderSliceError::Content(a)),
+                Err(err::macsec::HeaderReadError::Content(r)),
+            ) => a == r,
+            _ => false,
+        };
+        if !same {
+            return Err(format!(
+                "!decoders-differ(from_slice={:?},read={:?})",
+                by_slice.map(|h| show_macsec(&h)).map_err(|e| format!("{:?}", e)),
+                by_read.map(|h| show_macsec(&h)).map_err(|e| format!("{:?}", e))
+            ));
+        }
+    }
     match MacsecHeader::from_slice(b) {
         Ok(h) => {
             // the crate returns only the header; the rest is slice[header_len..]
